@@ -133,6 +133,8 @@ def snapshot(root, digest=True):
                 with open(path, "rb") as fd:
                     h = hashlib.sha256(fd.read()).hexdigest()
             out[rel] = ("file", st.st_size, h, stat.S_IMODE(st.st_mode))
+        elif stat.S_ISLNK(st.st_mode):
+            out[rel] = ("link", 0, os.readlink(path), stat.S_IMODE(st.st_mode))
         else:
             out[rel] = ("other", 0, None, stat.S_IMODE(st.st_mode))
 
